@@ -461,7 +461,10 @@ def frame_body(body: bytes, framing: str, plan: dict | None):
             out += sz + b"\r\n" + body[pos : pos + c] + b"\r\n"
             pos += c
         lines.append(len(out))
-        out += b"0\r\n\r\n"
+        out += b"0\r\n"
+        if (plan or {}).get("trailer"):
+            out += b"X-Check: abc\r\nX-More: 1\r\n"  # a trailer section (RFC 9112 7.1.2) after the last-chunk
+        out += b"\r\n"
         return [b"Transfer-Encoding: chunked"], bytes(out), lines
     raise ValueError(framing)
 
